@@ -7,8 +7,8 @@ import "math"
 // islands, coincident and partially overlapping edges, shared vertices, a hole directly above a
 // non-result edge, vertical edges, self-intersections); the *sample point* is symbolic, so the
 // solver decides the region equality for every point of the plane that is not within 1e-5 of a
-// boundary line.  Thorough tier: one coordinate of the shape is symbolic as well (the sweep then
-// forks over every ordering of events that the coordinate range allows).
+// boundary line.  (An experiment with a symbolic shape coordinate - the inner square sliding by a real dx - did
+// not finish: > 1500 symbolic decisions per path and math.Round in the snap rounding; see DESIGN.md.)
 
 type vhPgon [][2]float64
 
@@ -198,3 +198,4 @@ func VH_C01_boolean_region_Q() {
 	vKnown("D41", (op == 1 || op == 2) && pair == 3)
 	vAssert("C01.boolean.set_algebra", (wr != 0) == want)
 }
+
